@@ -853,6 +853,16 @@ func c13cid(r *rand.Rand, k *mon.Case, n int, light bool) *c13spec {
 			sel[i] = fd
 		}
 	}
+	if r.IntN(4) == 0 {
+		// the first glyphs use the last private dictionary (index 255 of 256
+		// is the largest value an FDSelect entry can hold), the last glyph the
+		// first one
+		for i := 0; i < min(n, 1+r.IntN(3)); i++ {
+			sel[i] = nfd - 1
+		}
+		sel[n-1] = 0
+		k.Class(fmt.Sprintf("cid:first-glyphs-use-last-fd:%s", map[bool]string{true: "256-dicts", false: "fewer"}[nfd == 256]))
+	}
 	f.FDSelect = func(g glyph.ID) int { return sel[g] }
 	return &c13spec{font: f, fdsel: sel, desc: fmt.Sprintf("cid,fds=%d,fdselmode=%d", nfd, mode)}
 }
